@@ -175,14 +175,18 @@ def _vm_goal(c, o):
 
 def _c17_vm_sample(d, tier, coq, build, want=300):
     import os, subprocess, collections
-    if tier != "thorough" and not os.environ.get("VERIF_C17_VM"):
-        return []
+    # thorough: 300 goals; quick: a 60-goal sample (a couple of seconds)
+    small = tier != "thorough" and not os.environ.get("VERIF_C17_VM")
+    if small:
+        want = 60
     outs = {}
     with open(os.path.join(d, "model.txt")) as f:
         for l in f:
             i, _, o = l.rstrip("\n").partition(" ")
             outs[i] = o
     quota = {"T": 90, "A": 60, "W": 50, "D": 40, "B": 60}
+    if small:
+        quota = {k: v // 5 for k, v in quota.items()}
     total, stride, got = collections.Counter(), collections.Counter(), collections.Counter()
     with open(os.path.join(d, "cases.txt")) as f:
         for l in f:
